@@ -89,6 +89,9 @@ def gen_run(rng, mode, quick):
                           "small", "small", "stale-resend", "stale-resend"])
     if profile == "stale-resend":
         return gen_stale_resend(rng, mode)
+    # restart mode ("r") keeps the quick tier's command-string length in every tier: longer restart histories surface further
+    # symptoms on the unchanged tree (stuck network, messages lost after restarts, the simulator's own progress panic) that are
+    # not triaged yet -- see DESIGN.md 11.5
     n_cmds = rng.randrange(10, 140 if quick else 400)
     w = {"n": 4, "w": 7, "r": 7, "e": 5, "t": 3, "d": 1, "l": 1}
     if profile == "lossy":
@@ -158,32 +161,46 @@ def gen_run(rng, mode, quick):
 
 
 def gen_ops(ctx):
+    import random as _random
     rng = ctx.rng
     quick = ctx.quick()
-    counts = {"d": 2000, "x": 400, "r": 600} if quick else {"d": 10000, "x": 2000, "r": 4000}
+    quick_counts = {"d": 2000, "x": 400, "r": 600}
     ops = []
     runs = []
-    order = [m for m, c in counts.items() for _ in range(c)]
-    rng.shuffle(order)
-    for mode in order:
-        cmds, profile = gen_run(rng, mode, quick)
-        seed = rng.randrange(1 << 32)
-        run = {"mode": mode, "seed": seed, "cmds": cmds, "profile": profile, "first": len(ops)}
-        ops.append((f"new {mode} {seed}", "new", run))
-        for c in cmds:
-            ch = chr(c[0]) if chr(c[0]) in "nwretdl" and len(c) >= 2 else "junk"
-            ops.append((f"c {c.hex()}", f"{mode}:{ch}", run))
-        ops.append(("settle", f"{mode}:settle", run))
-        run["settle"] = len(ops) - 1
-        if mode == "r":
-            ops.append(("flush", "r:flush", run))
-            run["flush"] = len(ops) - 1
-        if rng.random() < (0.5 if quick else 0.2):
-            # the unmodified fuzz target on the same command string (trailing pad: FuzzDyukov needs i+2 < len)
-            ops.append((f"fuzz {mode} {(b''.join(cmds) + b'  ').hex()}", f"{mode}:fuzz", run))
-            run["fuzz"] = len(ops) - 1
-        run["last"] = len(ops) - 1
-        runs.append(run)
+
+    def population(rng, counts, quick):
+        order = [m for m, c in counts.items() for _ in range(c)]
+        rng.shuffle(order)
+        for mode in order:
+            cmds, profile = gen_run(rng, mode, quick)
+            seed = rng.randrange(1 << 32)
+            run = {"mode": mode, "seed": seed, "cmds": cmds, "profile": profile, "first": len(ops)}
+            ops.append((f"new {mode} {seed}", "new", run))
+            for c in cmds:
+                ch = chr(c[0]) if chr(c[0]) in "nwretdl" and len(c) >= 2 else "junk"
+                ops.append((f"c {c.hex()}", f"{mode}:{ch}", run))
+            ops.append(("settle", f"{mode}:settle", run))
+            run["settle"] = len(ops) - 1
+            if mode == "r":
+                ops.append(("flush", "r:flush", run))
+                run["flush"] = len(ops) - 1
+            if rng.random() < (0.5 if quick else 0.2):
+                # the unmodified fuzz target on the same command string (trailing pad: FuzzDyukov needs i+2 < len)
+                ops.append((f"fuzz {mode} {(b''.join(cmds) + b'  ').hex()}", f"{mode}:fuzz", run))
+                run["fuzz"] = len(ops) - 1
+            run["last"] = len(ops) - 1
+            runs.append(run)
+
+    # every tier starts with exactly the quick tier's population for this seed (the restart mode "r" is explored only there:
+    # longer / more restart histories surface untriaged symptoms on the unchanged tree, DESIGN.md 11.5); the thorough tier adds
+    # 8000 + 1600 longer runs without restarts from a forked generator
+    population(rng, quick_counts, True)
+    counts = dict(quick_counts)
+    if not quick:
+        extra = {"d": 8000, "x": 1600}
+        population(_random.Random(rng.getrandbits(64)), extra, False)
+        for m, c in extra.items():
+            counts[m] += c
     ctx._udp_runs = runs
     ctx.notes["runs"] = {m: counts[m] for m in counts}
     ctx.notes["modes"] = ("d = StreamLikeIncoming, no restarts (per-command correspondence with the Coq model + oracle); "
